@@ -27,6 +27,8 @@ for name, spec in b['files'].items():
     if spec is None:
         continue
     path = name if not name.startswith('$TMPDIR/') else os.path.join(os.environ['TMPDIR'], name[8:])
+    if os.path.dirname(path):
+        os.makedirs(os.path.dirname(path), exist_ok=True)
     if spec['kind'] == 'text':
         with open(path, 'w', encoding=spec.get('encoding', 'utf-8'), newline='') as f:
             f.write(_t(spec['text']))
@@ -111,6 +113,13 @@ def make_case(rnd, wd, shape, tmpdir_tokens_with_one_iteration=True, dated_first
         names['o1'], names['o4'] = a, b
         files = {a: {'kind': 'text', 'text': text_of(rnd, rnd.randint(1, 3), token_pool=tokens)},
                  b: {'kind': 'text', 'text': text_of(rnd, rnd.randint(1, 3), allow_specific=False)}}
+    if 'o5' in shape:
+        # two outputs with the same base name in different directories (found by directory), different contents
+        a, b = rnd.choice([('out/north/Report.txt', 'out/south/Report.txt'), ('out/a/data.csv', 'out/b/data.csv'),
+                           ('Out/x/Summary.log', 'Out/y/Summary.log')])
+        names['o1'], names['o5'] = a, b
+        files = {a: {'kind': 'text', 'text': text_of(rnd, rnd.randint(1, 3), token_pool=tokens)},
+                 b: {'kind': 'text', 'text': 'second ' + text_of(rnd, rnd.randint(1, 3), allow_specific=False)}}
     if 'o2' in shape:
         names['o2'] = rnd.choice(['data.png', 'blob.bin', 'image.jpg', 'archive.dat'])
         files[names['o2']] = {'kind': 'binary', 'bytes': [rnd.randrange(256) for _ in range(rnd.randint(1, 40))] + [0, 255, 128]}
@@ -150,6 +159,7 @@ def make_case(rnd, wd, shape, tmpdir_tokens_with_one_iteration=True, dated_first
             f.write('old reference\n')
     if pre == 'same-named' and names:
         n = names.get('o1') or names.get('o2')
+        os.makedirs(os.path.dirname(os.path.join(wd, n)), exist_ok=True)
         with open(os.path.join(wd, n), 'w') as f:
             f.write('left over from an earlier run\n')
     flags = []
@@ -165,13 +175,20 @@ def make_case(rnd, wd, shape, tmpdir_tokens_with_one_iteration=True, dated_first
         flags.append('--non-zero-exit')
         nonzero = True
     refs_mode = rnd.choice(['dir', 'named', 'glob']) if names and 'o3' not in names else 'dir'
+    if 'o5' in names:
+        refs_mode = rnd.choice(['outdir', 'named'])
     refs = []
     if refs_mode == 'named':
         refs = [names[k] for k in sorted(names)]
+    elif refs_mode == 'outdir':
+        refs = [names['o1'].split('/')[0]]
     elif refs_mode == 'glob':
         refs = ['*.' + names[k].rsplit('.', 1)[1] for k in sorted(names)]
     script = rnd.choice(['test_job.py', 'test_job', os.path.join(wd, 'test_job.py')])
-    return {'wd': wd, 'beh': beh, 'names': names, 'tokens': tokens, 'pre': pre, 'flags': flags, 'iterations': iterations, 'no_stdout': no_stdout,
+    # arguments the command ignores, but which are part of the command TEXT that gentest records in the script
+    cmd_args = rnd.choice(['', '', '', " 'C:\\Users\\xavier\\notes.txt'", " '\\d+ \\N \\x'", ' "two words" --flag=1', " 'it is 100%% {ok}'",
+                           " 'tab\\there' '\\u12'"])
+    return {'wd': wd, 'beh': beh, 'names': names, 'tokens': tokens, 'cmd_args': cmd_args, 'pre': pre, 'flags': flags, 'iterations': iterations, 'no_stdout': no_stdout,
             'no_stderr': no_stderr, 'nonzero': nonzero, 'refs': refs, 'refs_mode': refs_mode, 'script': script}
 
 
@@ -180,7 +197,7 @@ def run_gentest(case, timeout=180):
     gtmp = os.path.join(case['wd'] + '_tmp')
     os.makedirs(gtmp, exist_ok=True)
     env['TMPDIR'] = gtmp
-    cmdline = '%s cmd.py' % common.PY
+    cmdline = '%s cmd.py%s' % (common.PY, case.get('cmd_args', ''))
     argv = [common.PY, '-W', 'ignore', '-m', 'tdda.referencetest.gentest'] + case['flags'] + [cmdline, case['script']] + case['refs']
     p = subprocess.run(argv, cwd=case['wd'], env=env, stdout=subprocess.PIPE, stderr=subprocess.PIPE, text=True, timeout=timeout)
     return p.returncode, p.stdout, p.stderr
@@ -235,24 +252,56 @@ def edit_first_line(text, rnd, how=None):
     return '\n'.join(lines)
 
 
-RE_METHOD = re.compile(r"def (test_\w+)\(self\):(?:(?!\n    def ).)*?self\.assert\w+\(\s*os\.path\.join\(self\.(?:cwd|tmpdir), '((?:[^'\\\\]|\\\\.)*)'\)", re.S)
+RE_METHOD = re.compile(r"def (test_\w+)\(self\):(?:(?!\n    def ).)*?self\.assert\w+\(\s*os\.path\.join\(self\.(?:cwd|tmpdir), '((?:[^'\\\\]|\\\\.)*)'\)"
+                       r"(?:,\s*os\.path\.join\(self\.refdir, '((?:[^'\\\\]|\\\\.)*)'\))?", re.S)
 
 
-def script_test_map(case):
-    """{output file name as written in the script: name of the test method that checks it} (last definition wins,
-    as in Python)."""
+def _unq(x):
+    try:
+        return eval("'" + x + "'")
+    except Exception:
+        return x
+
+
+def script_map(case):
+    """{output file as written in the script (path relative to cwd or $TMPDIR): {'test': method name, 'ref': reference file name}};
+    a later definition of the same method name replaces an earlier one, as in Python."""
     try:
         text = open(os.path.join(case['wd'], 'test_job.py'), encoding='utf-8').read()
     except OSError:
         return {}
     out = {}
     for m in RE_METHOD.finditer(text):
-        try:
-            fname = eval("'" + m.group(2) + "'")
-        except Exception:
-            fname = m.group(2)
-        out[os.path.basename(fname)] = m.group(1)
+        fname = _unq(m.group(2))
+        out[fname] = {'test': m.group(1), 'ref': _unq(m.group(3)) if m.group(3) else os.path.basename(fname)}
     return out
+
+
+def script_test_map(case):
+    """{output file (relative path and, when unambiguous, base name): test method name}."""
+    sm = script_map(case)
+    out = {}
+    for fname, v in sm.items():
+        out[fname] = v['test']
+    bases = {}
+    for fname in sm:
+        bases.setdefault(os.path.basename(fname), []).append(fname)
+    for b, fl in bases.items():
+        if len(fl) == 1:
+            out.setdefault(b, sm[fl[0]]['test'])
+    return out
+
+
+def lookup(m, name, default=None):
+    """Entry for an output named `name` (relative path, '$TMPDIR/x' or base name) in a map keyed as the script writes it."""
+    key = name[8:] if name.startswith('$TMPDIR/') else name
+    if key in m:
+        return m[key]
+    b = os.path.basename(key)
+    cands = [k for k in m if os.path.basename(k) == b]
+    if len(cands) == 1:
+        return m[cands[0]]
+    return default
 
 
 def edit_token_line(text, rnd, token):
